@@ -67,6 +67,8 @@ def rand_directive(rng, a, b):
 def gen_history(rng, pfx, modname, n_events):
     a = rng.choice(UNMET_A)
     b = rng.choice(UNMET_B)
+    if rng.random() < 0.15:
+        a, b = rng.choice([('env:SIM_CASE', 'env:sim_case'), ('module:sim_NoSuch', 'module:sim_nosuch')])   # differ in case only
     steps = []
     i = 0
     helpers = []
@@ -105,7 +107,7 @@ def gen_history(rng, pfx, modname, n_events):
             st['sep'] = 'blank'
         if rng.random() < 0.35 and form not in W.NOCODE_FORMS and form not in ('tqdirective', 'badcompile'):
             st['inline'] = rand_directive(rng, a, b)
-            st['inline_at'] = rng.choice(['first', 'last'])
+            st['inline_at'] = rng.choice(['first', 'last', 'own'])
         # want
         if form not in ('defhelper',) and rng.random() < 0.45:
             cands = []
